@@ -1884,7 +1884,7 @@ theorem runInner_regular (mode : Mode) (c : Nat) (sig : Sig) (raw : List Bytes) 
     (runInner mode c sig raw s).2.srv.dbs = s.srv.dbs.set (s.conn c).db o.db.dict ∧
     (runInner mode c sig raw s).2.srv.time = s.srv.time := by
   intro o
-  unfold runInner
+  rw [runInner_regular_eq mode c sig raw h]
   rw [runWith_regular_run _ mode c sig raw false h s (Sys.refuses_of_unsubscribed sig hps)]
   have ho : s.regularOut c sig body raw false = o := by
     unfold Sys.regularOut
